@@ -71,7 +71,7 @@ def job(j):
             argT = [type_desc(a.ttype) for a in qf.args]
             nin = sum(width(T) for T in argT)
             wret = len(qf.returns.bitvec)
-            if nin > j.get("maxin", 8) or wret > 10 or nin == 0:
+            if nin > j.get("maxin", 8) or wret > 16 or nin == 0:
                 out["status"] = "too-wide"
                 return out
             qc = qf.circuit()
@@ -95,14 +95,14 @@ def job(j):
             c["enc"] = enc
             rT = type_desc(qf.returns.ttype)
             dec = []
-            for p in range(2 ** wret):
+            for p in (range(2 ** wret) if wret <= 10 else []):
                 s = "".join("1" if (p >> k) & 1 else "0" for k in reversed(range(wret)))
                 try:
                     dec.append(jval(qf.decode_output(s), rT))
                 except Exception:
                     dec.append(-1)
             c["dec"] = dec
-            pts = sorted({0, 1 % (2 ** wret), 2 ** wret - 1})
+            pts = sorted({0, 1 % (2 ** wret), 2 ** wret - 1}) if wret <= 10 else []
             counts = {"".join("1" if (p >> k) & 1 else "0" for k in reversed(range(wret))): 5 + 2 * n for n, p in enumerate(pts)}
             c["cin"] = [[p, 5 + 2 * n] for n, p in enumerate(pts)]
             try:
